@@ -50,6 +50,95 @@ enum Rec {
     Reg { inv: u64, ret: u64, ts: HLCTimestamp, vt_inv: u64 },
 }
 
+/// One real node (DatacakeNodeBuilder::connect on a simulated host): stamps taken through
+/// `node.clock()` and through `node.handle().clock()` come from one clock.
+fn execute_real_node(r: &Value) -> Outcome {
+    use std::cell::RefCell;
+    use std::rc::Rc;
+    let mut out = Outcome::default();
+    let id = r["node"].as_u64().unwrap_or(1) as u8;
+    let lead_ms = r["lead_ms"].as_u64().unwrap_or(30_000);
+    let rounds = r["rounds"].as_u64().unwrap_or(3);
+    let net_seed = r["net_seed"].as_u64().unwrap_or(1);
+    let base_ms: u64 = 20_000_000_000;
+    datacake_crdt::verif::set_wall_clock(Some(Box::new(move |_n| datacake_crdt::DATACAKE_EPOCH + Duration::from_millis(base_ms) + turmoil::elapsed())));
+    let found: Rc<RefCell<Vec<(String, String)>>> = Rc::new(RefCell::new(Vec::new()));
+    let mut sim = turmoil::Builder::new()
+        .simulation_duration(Duration::from_secs(600))
+        .tick_duration(Duration::from_millis(1))
+        .build_with_rng(Box::new(<rand::rngs::SmallRng as rand::SeedableRng>::seed_from_u64(net_seed)));
+    {
+        let found = found.clone();
+        sim.client("solo", async move {
+            let ip = turmoil::lookup("solo");
+            let addr: std::net::SocketAddr = (ip, 9000).into();
+            let node = datacake_node::DatacakeNodeBuilder::<datacake_node::DCAwareSelector>::new(id, datacake_node::ConnectionConfig::new(addr, addr, Vec::<String>::new()))
+                .connect()
+                .await
+                .map_err(|e| format!("connect: {e}"))?;
+            let handle = node.handle();
+            let mut issued: Vec<HLCTimestamp> = Vec::new();
+            for round in 0..rounds {
+                tokio::time::sleep(Duration::from_millis(37)).await;
+                // a peer whose clock runs ahead (within the permitted drift) is heard of on one
+                // clock handle; the next stamp taken through the other must be greater
+                let now_ms = base_ms + turmoil::elapsed().as_millis() as u64;
+                let remote = HLCTimestamp::new(Duration::from_millis((now_ms + lead_ms * (round + 1)) / 4 * 4), 0, id.wrapping_add(1));
+                let (via_a, via_b) = if round % 2 == 0 { ("node.clock()", "node.handle().clock()") } else { ("node.handle().clock()", "node.clock()") };
+                if round % 2 == 0 {
+                    node.clock().register_ts(remote).await;
+                } else {
+                    handle.clock().register_ts(remote).await;
+                }
+                let got = if round % 2 == 0 { handle.clock().get_time().await } else { node.clock().get_time().await };
+                if got <= remote {
+                    found.borrow_mut().push(("C11/real-node/timestamp-not-greater-than-registered-remote".into(), format!("{remote} was registered through {via_a}; a stamp taken afterwards through {via_b} is {got}")));
+                }
+                issued.push(got);
+                // the same instant through both handles
+                let a = node.clock().get_time().await;
+                let b = handle.clock().get_time().await;
+                issued.push(a);
+                issued.push(b);
+            }
+            let mut sorted = issued.clone();
+            sorted.sort();
+            if let Some(w) = sorted.windows(2).find(|w| w[0] == w[1]) {
+                found.borrow_mut().push(("C11/real-node/duplicate-timestamp".into(), format!("{} was handed out twice by the clock handles of one node", w[0])));
+            }
+            if issued.windows(2).any(|w| w[1] <= w[0]) {
+                found.borrow_mut().push(("C11/real-node/timestamps-not-increasing".into(), format!("stamps taken one after the other through the node's clock handles: {:?}", issued.iter().map(|t| t.to_string()).collect::<Vec<_>>())));
+            }
+            Ok(())
+        });
+    }
+    let run = std::panic::catch_unwind(std::panic::AssertUnwindSafe(|| sim.run()));
+    drop(sim);
+    datacake_crdt::verif::set_wall_clock(None);
+    for (loc, msg) in take_panics() {
+        if loc.starts_with("/repo/") {
+            out.violate(format!("C11/panic@{}", loc.trim_start_matches("/repo/")), format!("{loc}: {msg}"));
+        } else {
+            out.anomalies.push(format!("{loc}: {msg}"));
+        }
+    }
+    if let Ok(Err(e)) = &run {
+        out.anomalies.push(format!("simulation ended with: {e}"));
+    }
+    for (c, d) in found.borrow().iter() {
+        out.violate(c.clone(), d.clone());
+    }
+    out.probe("real_node_arm_case");
+    out.nontrivial = true;
+    let mut tr = Fnv::new();
+    tr.u64(id as u64).u64(lead_ms).u64(rounds);
+    out.trace_hash = tr.finish();
+    out.signature = tr.finish();
+    out.state_fp = tr.finish();
+    out.sim_ms = 37 * rounds;
+    out
+}
+
 impl Check for C11 {
     fn id(&self) -> &'static str {
         "C11"
@@ -80,6 +169,13 @@ impl Check for C11 {
         }
     }
     fn generate(&self, seed: u64, idx: u64, _tier: Tier) -> Value {
+        // real-node arm: the clock a running node hands out through its handle (the one the store
+        // stamps writes with) is the node's one shared clock
+        if let Ok(ordinal) = arm_split(idx, 1999) {
+            let mut rng = rng_from(case_seed(seed ^ 0xC11, ordinal));
+            return serde_json::json!({ "real_node": { "node": rng.gen_range(0..=255u8), "lead_ms": rng.gen_range(1_000..300_000u64), "rounds": rng.gen_range(2..=6), "net_seed": rng.gen::<u64>() } });
+        }
+        let idx = idx - idx / 1999;
         let mut rng = rng_from(case_seed(seed, idx));
         let node = rng.gen_range(0..=255u8);
         let tasks = rng.gen_range(2..=8);
@@ -132,7 +228,13 @@ impl Check for C11 {
         wall.sort_by_key(|w| w.at_ms);
         serde_json::to_value(Scenario { base_ms: rng.gen_range(5_000_000_000u64..60_000_000_000), node, events, wall }).unwrap()
     }
+    fn isolate(&self, scenario: &Value) -> bool {
+        scenario.get("real_node").is_some()
+    }
     fn execute(&self, scenario: &Value) -> Outcome {
+        if let Some(r) = scenario.get("real_node") {
+            return execute_real_node(r);
+        }
         let sc: Scenario = match serde_json::from_value(scenario.clone()) {
             Ok(s) => s,
             Err(e) => return Outcome::invalid(format!("bad scenario: {e}")),
